@@ -55,7 +55,7 @@ type c18In struct {
 }
 
 var c18OpKinds = []string{"encode", "decode", "protect-unprotect", "derive-ike", "derive-child", "dh", "transforms", "eap", "eap-mac", "prf-prime", "random", "decode-shared",
-	"decode-modify-encode", "eap-decode-modify"}
+	"decode-modify-encode", "eap-decode-modify", "eap-decode-mac"}
 
 // touchReachable writes to every octet string reachable from v (exported or not, through pointers, interfaces, slices and
 // maps): a decoded value belongs to its caller, who may change it at will; anything it shares with another goroutine's value
@@ -274,12 +274,32 @@ func c18Run(p c18Prog, shared []byte, concurrent bool) []string {
 					}
 					res += "|" + hex.EncodeToString(w)
 				}
+			case "eap-decode-mac":
+				// a received packet (any sender's encoding of it), decoded straight from the receive buffer - which several
+				// goroutines may be reading - and verified: AT_MAC over the packet as received
+				pkt := new(eap.EAP)
+				if e := pkt.Unmarshal(op.Bytes); e != nil {
+					res = "error"
+					return nil
+				}
+				mac, e := pkt.CalcEapAkaPrimeAtMAC([]byte{byte(op.A), 2, 3, 4})
+				if e != nil {
+					res = "mac-error"
+					return nil
+				}
+				res = hex.EncodeToString(mac)
 			case "prf-prime":
 				a, b, c, d, e2, e := eap.EapAkaPrimePRF(append([]byte{1}, op.Bytes...), append([]byte{2}, op.Bytes...), string(op.Bytes))
 				if e != nil {
 					return e
 				}
 				res = fmt.Sprintf("%x%x%x%x%x", a, b, c, d, e2)
+				// the keys are the caller's: it wipes them when it is done with them
+				for _, k := range [][]byte{a, b, c, d, e2} {
+					for i := range k {
+						k[i] = 0
+					}
+				}
 			case "random":
 				n, e := security.GenerateRandomNumber()
 				if e != nil {
@@ -331,6 +351,16 @@ func c18GenOp(t *rapid.T) c18Op {
 			w, _ = gen.Mutate(t, w, nil)
 		}
 		op.Bytes = w
+	case "eap-decode-mac":
+		e := model.EAP{Code: 1, Identifier: rapid.Uint8().Draw(t, "eapid"), Kind: model.EAka, Sub: 1, Attrs: gen.AkaAttrs(t)}
+		var order []int
+		if rapid.Bool().Draw(t, "sender-order") {
+			for i := range e.Attrs {
+				order = append(order, i)
+			}
+			order = rapid.Permutation(order).Draw(t, "order")
+		}
+		op.Bytes, _ = ref.EncodeEAP(e, order)
 	case "eap-decode-modify":
 		e := gen.EAP(t, true)
 		switch rapid.IntRange(0, 3).Draw(t, "eapflavour") {
@@ -462,6 +492,9 @@ func c18Cold() c18In {
 			}
 			if kind == "eap-decode-modify" {
 				op.Bytes, _ = ref.EncodeEAP(model.EAP{Code: 2, Identifier: byte(g), Kind: model.EAka, Sub: 2}, nil)
+			}
+			if kind == "eap-decode-mac" {
+				op.Bytes = c18ReceivedChallenge(byte(g))
 			}
 			p.Ops = append(p.Ops, op)
 		}
@@ -656,6 +689,112 @@ var c18DHStorm = probe.Define("C18", "dh-storm", func(t *rapid.T) c18StormIn { p
 	return probe.OK(true, "dh-storm", fmt.Sprintf("goroutines:%d", in.Goroutines))
 })
 
+// c18ReceivedChallenge is an EAP-AKA' challenge whose sender put the attributes in an order of its own, so that the octets as
+// received differ from what the library would write itself.
+func c18ReceivedChallenge(id byte) model.Bytes {
+	e := model.EAP{Code: 1, Identifier: id, Kind: model.EAka, Sub: 1, Attrs: []model.AkaAttr{
+		{Type: model.AT_RAND, Value: bytes.Repeat([]byte{id ^ 0x11}, 16)}, {Type: model.AT_AUTN, Value: bytes.Repeat([]byte{0x22}, 16)},
+		{Type: model.AT_KDF, Value: model.Bytes{0, 1}}, {Type: model.AT_KDF_INPUT, Value: model.Bytes("5G:mnc093.mcc208.3gppnetwork.org")},
+		{Type: model.AT_MAC, Value: bytes.Repeat([]byte{id}, 16)}}}
+	w, err := ref.EncodeEAP(e, []int{4, 2, 3, 0, 1})
+	if err != nil {
+		panic(err)
+	}
+	return w
+}
+
+// c18Hammer: every goroutine repeats ONE operation with ITS OWN fixed arguments many times over while the others do the same
+// with theirs (or, in the "same" variant, with the very same arguments and - where the operation reads a datagram - the very
+// same read-only datagram). Each result must be what the operation gives when run alone. This is where a memo of the last
+// call, a one-entry cache, a shared builder or a "take the fast path when the lock is free" shows: two callers alternating
+// on it with different arguments, or meeting on it with equal ones.
+type c18HammerIn struct {
+	Procs      int    `json:"gomaxprocs"`
+	Goroutines int    `json:"goroutines"`
+	Rounds     int    `json:"rounds"`
+	Kind       string `json:"kind"`
+	Same       bool   `json:"same_arguments"`
+}
+
+var c18Hammer = probe.Define("C18", "hammer", func(t *rapid.T) c18HammerIn { panic("enumerated") }, func(in c18HammerIn) probe.Outcome {
+	cold := c18Cold()
+	progs := make([]c18Prog, in.Goroutines)
+	var sharedBytes, sharedCopy model.Bytes
+	for g := range progs {
+		src := cold.Progs[g%len(cold.Progs)]
+		if in.Same {
+			src = cold.Progs[0]
+		}
+		p := c18Prog{Suite: src.Suite, Keys: src.Keys}
+		for _, op := range src.Ops {
+			if op.Op == in.Kind {
+				if !in.Same {
+					op.A, op.B = op.A+g/len(cold.Progs), op.B+3*(g/len(cold.Progs))
+				} else if op.Bytes != nil {
+					if sharedBytes == nil {
+						sharedBytes, sharedCopy = op.Bytes, append(model.Bytes(nil), op.Bytes...)
+					}
+					op.Bytes = sharedBytes // one slice, read by all
+				}
+				p.Ops = []c18Op{op}
+			}
+		}
+		if len(p.Ops) != 1 {
+			return probe.Fail("HARNESS: no operation of kind %q", in.Kind)
+		}
+		progs[g] = p
+	}
+	want := make([]string, len(progs))
+	for g, p := range progs {
+		want[g] = c18Run(p, cold.Shared, false)[0]
+		if len(want[g]) > 7 && want[g][:7] == "HARNESS" {
+			return probe.Fail("%s", want[g])
+		}
+	}
+	old := runtime.GOMAXPROCS(in.Procs)
+	defer runtime.GOMAXPROCS(old)
+	bad := make([]string, len(progs))
+	var wg sync.WaitGroup
+	start := make(chan struct{})
+	for g := range progs {
+		wg.Add(1)
+		go func(g int) {
+			defer wg.Done()
+			<-start
+			for r := 0; r < in.Rounds && bad[g] == ""; r++ {
+				if got := c18Run(progs[g], cold.Shared, false)[0]; got != want[g] {
+					bad[g] = fmt.Sprintf("round %d:\n alone:      %s\n concurrent: %s", r, model.Clip([]byte(want[g])), model.Clip([]byte(got)))
+				}
+			}
+		}(g)
+	}
+	close(start)
+	wg.Wait()
+	for g, b := range bad {
+		if b != "" {
+			return probe.Fail("%d goroutines (GOMAXPROCS %d) each repeating %q with %s arguments: goroutine %d, %s", in.Goroutines, in.Procs, in.Kind,
+				map[bool]string{false: "their own", true: "the same"}[in.Same], g, b)
+		}
+	}
+	if sharedBytes != nil && !bytes.Equal(sharedBytes, sharedCopy) {
+		return probe.Fail("the datagram shared read-only by the goroutines was modified")
+	}
+	return probe.OK(true, "hammer:"+in.Kind, fmt.Sprintf("same-arguments:%v", in.Same))
+})
+
+func c18HammerAll(c *probe.Ctx, scale int) {
+	for i, kind := range c18OpKinds {
+		rounds := 250 * scale
+		switch kind {
+		case "dh", "random", "derive-ike", "derive-child", "protect-unprotect":
+			rounds = 25 * scale
+		}
+		for _, same := range []bool{false, true} {
+			c18Hammer.Eval(c, c18HammerIn{Procs: []int{8, 2, 16, 4}[(i+c.Shard)%4], Goroutines: 8, Rounds: rounds, Kind: kind, Same: same})
+		}
+	}
+}
+
 func TestC18(t *testing.T) {
 	probe.RotateProcs = false // every burst sets GOMAXPROCS itself
 	c := probe.NewCtx(t, "C18")
@@ -666,6 +805,7 @@ func TestC18(t *testing.T) {
 	}
 	c.Note("race detector enabled: %v; schedules are sampled by the Go runtime, not enumerated", raceEnabled)
 	c18Concurrent.Run(c, t, c.N(120, 1000))
+	c18HammerAll(c, c.N(1, 4))
 	c18NoStragglers.Eval(c, c18LeakIn{Calls: 400})
 }
 
@@ -702,5 +842,54 @@ var c18NoStragglers = probe.Define("C18", "no-goroutines-left-behind", func(t *r
 	if after > before+8 {
 		return probe.Fail("%d goroutines are still running after %d x %d library calls have returned (%d before): calls leave goroutines behind", after, in.Calls, len(prog.Ops), before)
 	}
-	return probe.OK(true, "no-goroutines-left-behind")
+	// ... and the calls that REFUSE their input: malformed datagrams, protected messages with a wrong checksum, key derivation
+	// and SA set-up with arguments that cannot work, wrong key sizes
+	sa, err := bridge.NewSA(prog.Suite, prog.Keys)
+	if err != nil {
+		return probe.Fail("HARNESS: %v", err)
+	}
+	w, _, _, err := libProtect(prog.Ops[0].Msg, sa, true, nil)
+	if err != nil {
+		return probe.Fail("HARNESS: %v", err)
+	}
+	bad := c18Malformed()
+	prop, _ := newInfoSA(prog.Suite).ToProposal()
+	refused := 0
+	for i := 0; i < in.Calls; i++ {
+		probe.Try(func() error {
+			if new(message.IKEMessage).Decode(probe.Exact(bad[i%len(bad)])) != nil {
+				refused++
+			}
+			x := append([]byte(nil), w...)
+			x[len(x)-1-i%12] ^= 1 << uint(i%8)
+			peer, _ := bridge.NewSA(prog.Suite, prog.Keys)
+			if _, e := libUnprotect(x, peer, false, i%2 == 0); e != nil {
+				refused++
+			}
+			if _, _, e := security.NewIKESAKey(prop, []byte{2}, nil, 1, 2); e != nil {
+				refused++
+			}
+			if _, _, e := security.NewIKESAKey(prop, nil, []byte("n"), 1, 2); e != nil {
+				refused++
+			}
+			if e := newInfoSA(prog.Suite).GenerateKeyForIKESA(nil, nil, 0, 0); e != nil {
+				refused++
+			}
+			if _, _, _, _, _, e := eap.EapAkaPrimePRF(nil, nil, "x"); e != nil {
+				refused++
+			}
+			if _, e := encr.StrToType(ref.Encrs[i%3].Name).NewCrypto(make([]byte, 5+i%40)); e != nil {
+				refused++
+			}
+			if e := new(eap.EAP).Unmarshal([]byte{1, 2, 0, byte(i)}); e != nil {
+				refused++
+			}
+			return nil
+		})
+	}
+	after2 := settle()
+	if after2 > after+8 {
+		return probe.Fail("%d goroutines are still running after %d refused calls have returned (%d before): refusing an input leaves a goroutine behind", after2, refused, after)
+	}
+	return probe.OK(true, "no-goroutines-left-behind", fmt.Sprintf("refused-calls>=%d", refused/1000*1000))
 })
